@@ -280,6 +280,8 @@ def compare_reader(reader, docs, schema, field_names, parts=None):
     parts = parts or ("count", "docs", "stored", "lengths", "vectors", "columns", "terms")
     if "duplicate_uids" in got and "docs" in parts:
         return "docs", "documents returned twice: uids %s" % (got["duplicate_uids"][:5],)
+    if "lexicon_order_errors" in got and "terms" in parts:
+        return "terms", "all_terms() is not strictly ascending: %r then %r" % tuple(got["lexicon_order_errors"])
     if "posting_order_errors" in got and "terms" in parts:
         return "terms", "posting ids not ascending: %s" % (got["posting_order_errors"],)
     if "count" in parts and got["doc_count"] != exp["doc_count"]:
